@@ -243,6 +243,35 @@ Proof.
 Qed.
 Print Assumptions C06_touching_site_refuted.
 
+(* ... and the same site WITH a finally clause keeps the frame on every history, failing runs
+   included (here set and run are constrained separately, because the site acts between them; the
+   values Processor.set stores are payload or new objects: it makes no pre-existing location newly
+   reachable).  So what separates the two is exactly the exceptional path. *)
+Theorem C06_guarded_touching_site_keeps_frame :
+  forall (params res : Type) (setp : params -> heap -> loc -> heap * bool)
+         (run : params -> heap -> loc -> heap * option res),
+    (forall ps s l, frame_ok s l (fst (setp ps s l))) ->
+    (forall ps s l, frame_ok s l (fst (run ps s l))) ->
+    (forall ps s l x, reach (fst (setp ps s l)) l x -> x < length s -> reach s l x) ->
+    forall cs s0 p x, x < length s0 ->
+      nth_error (fst (calls_exc params res setp run src_policy (KDetach true) cs s0 p)) x = nth_error s0 x.
+Proof.
+  intros params res setp run H1 H2 H3 cs s0 p x Hx.
+  apply calls_detach_guarded_frame; auto; vm_compute; reflexivity.
+Qed.
+Print Assumptions C06_guarded_touching_site_keeps_frame.
+
+Example guarded_site_hypotheses_satisfiable :
+  (forall k s l, frame_ok s l (fst (setp_nonneg k s l))) /\
+  (forall k s l, frame_ok s l (fst (run_touch_some k s l))) /\
+  (forall k s l x, reach (fst (setp_nonneg k s l)) l x -> x < length s -> reach s l x) /\
+  snd (calls_exc Z Z setp_nonneg run_touch_some src_policy (KDetach true) [(true, [1; -1; 2])]%Z demo_heap 0)
+    = [[Some 6; None]]%Z.
+Proof.
+  split; [exact setp_nonneg_frame|]. split; [exact run_touch_some_frame|].
+  split; [exact setp_nonneg_no_capture|]. vm_compute. reflexivity.
+Qed.
+
 (* ------------------------------------------------------------------ reference-valued parameters *)
 
 (* Parameter values are payload (immutable) in C06_frame.  A parameter value can also be a REFERENCE
